@@ -2976,6 +2976,11 @@ func (c *codegen) writeJumps(b []byte) ([]byte, error) {
 	// Correct function and lambda ip range.
 	// Note: indices are sorted in increasing order.
 	for _, f := range c.funcs {
+		// Unused functions are not emitted, their range is empty and must stay
+		// this way for them to be omitted from the debug info.
+		if f.rng.Start == f.rng.End {
+			continue
+		}
 		f.rng.Start, f.rng.End = correctRange(f.rng.Start, f.rng.End, nopOffsets)
 	}
 	for _, l := range c.lambda {
